@@ -109,6 +109,8 @@ pub fn gen_c03(g: &mut Gen, tier: &str) {
         g.push(true, Input::new("dt_cmp", vec![a.0, a.1, a.2, b.0, b.1, b.2]));
         // the sign of every *_since difference agrees with the order
         g.push(true, Input::new("dt_since", vec![(k % 7) as i128, a.0, a.1, a.2, b.0, b.1, b.2]));
+        if k % 3 == 0 { let (tn, to) = (nanos_pool(g), off_pool(g)); let (un, uo) = (nanos_pool(g), off_pool(g));
+            g.push(true, Input::new("time_since", vec![(k % 6) as i128, tn, to, un, uo])); }
         if k % 5 == 0 {
             g.push(a.0 != b.0, Input::new("date_cmp", vec![a.0, b.0]));
             g.push(a.1 != b.1, Input::new("time_cmp", vec![a.1, a.2, b.1, b.2]));
@@ -263,6 +265,8 @@ pub fn gen_c02(g: &mut Gen, tier: &str) {
         g.push(true, Input::new("date_info", vec![d]));
         let v = dt_pool(g);
         g.push(v.2 != 0, Input::new("dt_info", vec![v.0, v.1, v.2]));
+        // set_day_of_year on a DateTime with an offset (local year, local day; near midnight the two calendars differ)
+        if v.2 != 0 { let x = *g.rng.pick(&[1i128, 2, 59, 60, 61, 100, 364, 365, 366, 0, 367]); g.push(true, Input::new("dt_set", vec![3, v.0, v.1, v.2, x])); }
     }
     let doys: [i128; 12] = [0, 1, 2, 59, 60, 61, 173, 174, 193, 194, 365, 366];
     for _ in 0..n / 2 {
@@ -304,6 +308,16 @@ pub fn gen_c05(g: &mut Gen, tier: &str) {
             }
         }
         g.push(c != 0, Input::new("date_addm", vec![kind, d, c]));
+    }
+    // 29 February moved by multiples of four years / 48 months into and across century years (common: 1900, 2100, -101; leap: 2000, -401)
+    for y in [1896i64, 1904, 1996, 2000, 2004, 2096, 2104, 4, -1, -5, -97, -101, -105, -397, -401] {
+        if !is_leap(y) { continue; }
+        let d = days_from_ymd(y, 2, 29) as i128;
+        for c in [4i128, 8, 96, 100, 104, 200, 300, 400] { for kind in 0..4i128 {
+            let cc = if kind < 2 { c * 12 } else { c };
+            g.push(true, Input::new("date_addm", vec![kind, d, cc]));
+            g.push(true, Input::new("dt_addm", vec![kind, d, 43_200 * NPS, 3_600, cc]));
+        } }
     }
     if tier == "thorough" {
         for y in [-3i64, -2, -1, 1, 2, 3, 2019, 2020, 2021, 2024] {
